@@ -18,6 +18,17 @@ export RUSTFLAGS="--cfg a4lg_ffuzzy_verif" CARGO_NET_OFFLINE=true
 for prof in release relda; do
   cargo build --profile $prof -p harness --target-dir "$R/target" --config "paths=[\"$R/repo/ffuzzy\"]" > "$R/build.$prof.log" 2>&1 || { echo "BUILD FAILED ($prof)"; grep -E "^error" -A8 "$R/build.$prof.log" | head -30; exit 2; }
 done
+if echo " $* " | grep -q " C14 "; then
+  pids=()
+  for c in f-default f-unsafe f-unchecked f-reduce-fnv f-unsafe-reduce-fnv f-strict f-nodefault; do
+    for prof in release relda; do
+      ( cargo build --profile $prof -p cfgprobe --no-default-features --features $c --target-dir "$R/target-cfg/$c" --config "paths=[\"$R/repo/ffuzzy\"]" > "$R/cfgprobe.$c.$prof.log" 2>&1 || { echo "cfgprobe build failed $c $prof"; exit 1; } ) &
+      pids+=($!)
+    done
+  done
+  for p in "${pids[@]}"; do wait $p || { echo "BUILD FAILED (cfgprobe)"; exit 2; }; done
+  export FFV_CFG_TARGET="$R/target-cfg"
+fi
 for id in "$@"; do
   out=$(VERIF_ROOT="$R/root" "$R/target/release/ffv" check "$id" --tier "${TIER:-quick}" 2>&1); rc=$?
   echo "== $id exit=$rc"
